@@ -121,9 +121,16 @@ def decorate_sites(rng, m, max_sites=6, alleles=None, known_times=None, discrete
     if rng.random() < 0.3 and 0.0 not in positions and positions:
         positions[0] = 0.0
         positions = sorted(set(positions))
-    known_times = (rng.random() < 0.4) if known_times is None else known_times
-    if known_times:
+    mixed = False
+    if known_times is None:
+        r = rng.random()
+        known_times = r < 0.3
+        mixed = 0.3 <= r < 0.45  # known at some sites, unknown at others (only mixing WITHIN a site is invalid)
+    if known_times or mixed:
         m.tags.add("mutation-times")
+    if mixed:
+        m.tags.add("mutation-times-mixed-across-sites")
+    model_known = known_times
     n = m.num_nodes
     sites, muts = [], []
     for j, pos in enumerate(positions):
@@ -131,6 +138,7 @@ def decorate_sites(rng, m, max_sites=6, alleles=None, known_times=None, discrete
         sites.append((pos, anc, b""))
         fr = forest(m, pos)
         k = rng.choice([0, 1, 1, 1, 2, 3, max_muts])
+        known_times = (rng.random() < 0.5) if mixed else model_known
         lst = []
         for _ in range(k):
             u = rng.randrange(n)
